@@ -12,8 +12,8 @@ import (
 	"os"
 	"sort"
 	"strconv"
-	"time"
 	"strings"
+	"time"
 
 	"hv/drive"
 	"hv/fw"
